@@ -500,7 +500,25 @@ impl Scenario for ConnScenario {
                         last_activity = last_activity.max(*at);
                     }
                 }
-                let last_open = st.activity.iter().filter(|(at, w)| *at >= est && !w.starts_with("drop-")).map(|(at, _)| *at).max().unwrap_or(est).max(est);
+                // an open command only counts as activity if `open_substream` accepted it (an early-issued command can
+                // reach a protocol that has not yet been told about the connection: Err, nothing happens)
+                let results = |log: &[Seen]| -> Vec<bool> {
+                    log.iter().filter_map(|e| if let Seen::OpenSubstreamResult { result, .. } = e { Some(result.is_ok()) } else { None }).collect()
+                };
+                let (res_x, res_y, res_rx) = (results(&st.x.log.lock()), results(&st.y.log.lock()), results(&st.rx.log.lock()));
+                let (mut ix, mut iy, mut irx) = (0usize, 0usize, 0usize);
+                let mut last_open = est;
+                for (at, what) in &st.activity {
+                    let ok = match what.as_str() {
+                        "open-x" => { ix += 1; res_x.get(ix - 1).copied().unwrap_or(false) }
+                        "open-y" => { iy += 1; res_y.get(iy - 1).copied().unwrap_or(false) }
+                        "remote-open-x" => { irx += 1; res_rx.get(irx - 1).copied().unwrap_or(false) }
+                        _ => false,
+                    };
+                    if ok && *at >= est {
+                        last_open = last_open.max(*at);
+                    }
+                }
                 let held_at_end = st.held_history.last().map(|(_, h)| *h).unwrap_or(0);
                 let closed = st.closed_at.first().copied();
                 let explicit_end = self.program.iter().any(|o| matches!(o, COp::CutLink(_) | COp::KillRemote | COp::ForceCloseX));
